@@ -101,6 +101,11 @@ def generic_evaluator(ctx, P):
         gd = paths.guarded(f, i, lambda fn, cc, pol, a=a, b=b: paths.rel(fn, cc, pol, subst=False) == ("255", "<", "-hmm->ctx->tp[hmm->tmatid][%s][%s]" % (a, b)) or paths.rel(fn, cc, pol, subst=False) == ("-hmm->ctx->tp[hmm->tmatid][%s][%s]" % (a, b), "<", "255") and False)
         # TMAT_WORST_SCORE is 255 and BETTER_THAN is '>' on negated values
         if not gd:
+            def same_tp(fn, cc, pol, a=a, b=b):
+                r_ = paths.rel(fn, cc, pol, subst=False)
+                return r_ is not None and r_[1] == "<" and r_[2] == "-hmm->ctx->tp[hmm->tmatid][%s][%s]" % (a, b) and re.match(r"^-?\d+$", r_[0]) is not None
+            gd = paths.guarded(f, i, same_tp)
+        if not gd:
             gd = paths.guarded(f, i, lambda fn, cc, pol, a=a, b=b: pol and "tp[hmm->tmatid][%s][%s]" % (a, b) in fn.canon(cc, subst=False) and fn.canon(cc, subst=False).count("tp[") == 1)
         ctx.check(g, gd, key(f, "same-test:%s->%s" % (a, b)), f.where(i), "transition %s->%s is added without testing that same transition against TMAT_WORST_SCORE" % (a, b))
     co = [s for s in paths.stores(f) if s["path"] == "bestfrom" and s["rhs"] is not None and f.canon(s["rhs"], subst=False) == "from"]
